@@ -34,6 +34,12 @@ where
         return Err(());
     }
 
+    // Reject negative (and NaN) entries: they would make the cumulative distribution
+    // non-monotonic even if their sum (or the provided `normalization`) is positive.
+    if !probabilities.iter().all(|&p| p >= F::zero()) {
+        return Err(());
+    }
+
     let free_weight =
         wrapping_pow2::<Probability>(PRECISION).wrapping_sub(&probabilities.len().as_());
     let normalization = normalization.unwrap_or_else(|| probabilities.iter().copied().sum::<F>());
@@ -74,6 +80,11 @@ where
     );
 
     if probabilities.len() < 2 || probabilities.len() > Probability::max_value().as_() {
+        return Err(());
+    }
+
+    // Reject negative (and NaN) entries up front (before they can distort `normalization`).
+    if !probabilities.iter().all(|&p| p >= F::zero()) {
         return Err(());
     }
 
